@@ -14,10 +14,25 @@ Line protocol of the C14 model driver (`sqfsmodel c14`):
                                     stage), `a` (passes both)                                           (keeps the log)
   `monitor`                      → `monitor RRR…CC` : the specification predicate `Spec.Writer.statusOf` at every
                                     crash point (R rejected, C complete up to padding, X neither = property violated)
+  `F …`                          → `.` : a *failed* output call of the logged run (not an operation; remembers where
+                                    the first failure happened)
+  `failshape`                    → `failshape ok|bad nops=<n> after=<a>` : `failShapeCheck` (shape of the log of a run
+                                    that failed before it committed) and the number of operations logged after the first
+                                    failed call (the model issues none)
+  `ref <hex>` / `ref -`          → `ok` : the complete image of the fault-free run on the same input (`-`: there is none,
+                                    the input itself is damaged)
+  `monitorfail`                  → `monitorfail RRR…` : `Spec.Writer.failStatusOf` at every crash point of a failing run's
+                                    log (R rejected, C the complete reference image up to padding, X accepted although it
+                                    is not: property violated)
   `reset`                        → `ok`
+  `newlog`                       → `ok` : forget the log, keep the reference image and the saved log
+  `savelog` / `uselog <n>`       → `ok` : remember the current log / make the first n operations of the remembered log the
+                                    current one (the log of a failing run is, on unchanged code, a prefix of the fault-free one)
+  `failpos <p>`                  → `ok` : the first failed call came when p operations had been logged
 * script mode (in-process correspondence with `h_c14 <scratch> script`, same commands and answers):
   `init`, `opts`, `blk`, `mnew`/`mapp`/`mflush`/`mwrite`/`mreset`, `table`, `idtable`, `fragtable`, `export`, `xattr`,
-  `final`, `pad`, `end` (→ `ops …`, the modelled system calls), see `scriptStep`.
+  `final`, `pad`, `end` (→ `ops …`, the modelled system calls), see `scriptStep`; before `init`: `fault <k>` (the
+  output call at position k fails) and `limit <n>` (the file cannot grow beyond n bytes) → `ok`.
 -/
 namespace Driver.C14
 open Sqfs.Writer Sqfs.Consts
@@ -46,6 +61,10 @@ def stubCmp : Cmp := fun d =>
 
 structure St where
   ops : List Op := []      -- reversed (log mode)
+  saved : List Op := []             -- log mode: a saved log (in order), see `savelog`/`uselog`
+  failPos : Option Nat := none      -- log mode: number of operations logged before the first failed call
+  ref : Option Bytes := none        -- log mode: complete image of the fault-free run
+  fault : Fault := {}               -- script mode: the failure the next `init` … `end` run is subjected to
   -- script mode
   w : WState := {}
   bw : BlockW := {}
@@ -100,8 +119,10 @@ def scriptStep (st : St) (ws : List String) : Option (St × String) :=
     | some bs, some mt, some c =>
       if st.open_ then some (st, "bad-op") else
       match superInit bs mt c with
-      | .error e => some ({ st with open_ := true, w := { err := some e } }, s!"rc=-{e}")
-      | .ok sup => some ({ st with open_ := true, sup := sup, w := fWrite {} 0 sup.encode, bw := {} }, "rc=0")
+      | .error e => some ({ st with open_ := true, w := { err := some e, fault := st.fault } }, s!"rc=-{e}")
+      | .ok sup =>
+        let w := fWrite { fault := st.fault } 0 sup.encode
+        some ({ st with open_ := true, sup := sup, w := w, bw := {} }, s!"rc={rcOf w}")
     | _, _, _ => some (st, "bad-op")
   | ["opts", h] =>
     match fromHex h with
@@ -165,9 +186,19 @@ def scriptStep (st : St) (ws : List String) : Option (St × String) :=
     some ({ st with w := w, sup := sup }, if w.err.isSome then s!"rc={rcOf w}" else s!"rc=0 super={toHexTok sup.encode}")
   | ["pad", b] =>
     match b.toNat? with
-    | some b => let w := padd st.w st.sup.bytesUsed b; some ({ st with w := w }, s!"rc={rcOf w}")
+    | some b =>
+      -- `padd_sqfs` reports any failure as -1 (`int status = -1; … goto fail_errno`), not as an SQFS_ERROR code
+      let w := padd st.w st.sup.bytesUsed b; some ({ st with w := w }, if w.err.isSome then "rc=-1" else "rc=0")
     | none => some (st, "bad-op")
-  | ["end"] => some ({ ops := st.ops }, showOps st.w.ops)
+  | ["fault", k] =>
+    match k.toNat? with
+    | some k => if st.open_ then some (st, "bad-op") else some ({ st with fault := { st.fault with failAt := some k } }, "ok")
+    | none => some (st, "bad-op")
+  | ["limit", n] =>
+    match n.toNat? with
+    | some n => if st.open_ then some (st, "bad-op") else some ({ st with fault := { st.fault with limit := some n } }, "ok")
+    | none => some (st, "bad-op")
+  | ["end"] => some ({ ops := st.ops, failPos := st.failPos, ref := st.ref, saved := st.saved }, showOps st.w.ops)
   | _ => none
 
 def prefixVerdicts (ops : List Op) : List String :=
@@ -186,8 +217,26 @@ def monitorLog (ops : List Op) : List String :=
     | o :: r => st f :: go (o.apply f) r
   go [] ops
 
+/-- `Spec.Writer.failStatusOf` at every crash point of the log of a failing run -/
+def monitorFail (ops : List Op) (ref : Option Bytes) : List String :=
+  let st (f : Bytes) : String := match Sqfs.Spec.Writer.failStatusOf f ref with
+    | some true => "R" | some false => "C" | none => "X"
+  let rec go (f : Bytes) : List Op → List String
+    | [] => [st f]
+    | o :: r => st f :: go (o.apply f) r
+  go [] ops
+
 def step (st : St) (line : String) : St × String :=
   match words line with
+  | "F" :: _ => ({ st with failPos := match st.failPos with | some p => some p | none => some st.ops.length }, ".")
+  | ["failshape"] =>
+      let ops := st.ops.reverse
+      let after := match st.failPos with | some p => ops.length - p | none => 0
+      (st, s!"failshape {if failShapeCheck ops then "ok" else "bad"} nops={ops.length} after={after}")
+  | ["ref", h] => if h = "-" then ({ st with ref := none }, "ok") else match fromHex h with
+      | some f => ({ st with ref := some f }, "ok")
+      | none => (st, "bad-op")
+  | ["monitorfail"] => (st, "monitorfail " ++ "".intercalate (monitorFail st.ops.reverse st.ref))
   | ["verdict", h] => match fromHex h with
       | some f => (st, verdictStr f)
       | none => (st, "bad-op")
@@ -209,6 +258,14 @@ def step (st : St) (line : String) : St × String :=
   | ["monitor"] => (st, "monitor " ++ "".intercalate (monitorLog st.ops.reverse))
   | ["prefixes"] => (st, "prefixes " ++ " ".intercalate (prefixVerdicts st.ops.reverse))
   | ["reset"] => ({}, "ok")
+  | ["newlog"] => ({ ref := st.ref, saved := st.saved }, "ok")
+  | ["savelog"] => ({ st with saved := st.ops.reverse }, "ok")
+  | ["uselog", n] => match n.toNat? with
+      | some n => ({ st with ops := (st.saved.take n).reverse, failPos := none }, "ok")
+      | none => (st, "bad-op")
+  | ["failpos", p] => match p.toNat? with
+      | some p => ({ st with failPos := some p }, "ok")
+      | none => (st, "bad-op")
   | ws => match scriptStep st ws with
     | some r => r
     | none => (st, "bad-op")
